@@ -136,6 +136,9 @@ def run_case(case, rep, record=True):
                             obs_space=dict(shape=list(env.observation_space.shape),
                                            low=float(np.min(env.observation_space.low)), high=float(np.max(env.observation_space.high))),
                             action_space=repr(env.action_space)[:80]))
+    except walk.SourceRejected as e:
+        if record:
+            rep.count(f"source-rejected({e.owner})")
     except Failure as f:
         fail(f, nops)
     except Exception as e:
